@@ -11,6 +11,8 @@ def run(ctx):
     bulks = "{0,1,2}" if q else "{0,1,2,3}"
     ctx.model_check("MC_Walk", "bulk", constants=W.consts("CandQ" if q else "CandT", "RootC", 3, bulks, False),
                     invariants=W.INV_CONF, constraints=["NreqCap"], must_cover=["Round", "Done"], timeout=3000)
+    ctx.model_check("MC_Walk", "bulk_terminates", constants=W.consts("CandQ", "RootC", 2 if q else 3, bulks, False),
+                    properties=["Terminates"], must_cover=["Round"], timeout=3000)
     if not q:
         ctx.model_check("MC_Walk", "selftest_collapse", constants=W.consts("CandQ", "RootC", 3, "{1,2}", False, PinCollapse=True),
                         invariants=W.INV_CONF, constraints=["NreqCap"], expect=["Complete", "BulkEqualsGetNext"])
